@@ -15,6 +15,9 @@ From T4V Require Import Base.Str.
 Import ListNotations.
 Open Scope string_scope.
 
+(* the newline character *)
+Definition nl : string := String (ascii_of_nat 10) "".
+
 (* Python exception classes the path can raise (EFuel: the model ran out of
    fuel, i.e. universes fill each other cyclically: Python's RecursionError) *)
 Inductive err := EIndex | EValue | EKey | EType | EFuel.
@@ -203,6 +206,66 @@ Definition cell_material (toks : list string) (kmat krho : option string)
                  | Some _ => Ok (m', d')
                  end
       end
+  end.
+
+(* ------------------------------------------------------------------------ *)
+(* LIKE n BUT chains: parse_one_cell                                          *)
+(* ------------------------------------------------------------------------ *)
+
+(* an insertion-ordered Python dict with integer keys *)
+Definition idict (A : Type) := list (Z * A).
+Fixpoint ilookup {A} (k : Z) (d : idict A) : option A :=
+  match d with
+  | [] => None
+  | (k', v) :: r => if (k =? k')%Z then Some v else ilookup k r
+  end.
+
+(* the keyword/value entries of a card's options as far as the material is
+   concerned (the tokenizer itself — parse_keywords — is C15's) *)
+Inductive opt := OMat (s : string) | ORho (s : string) | OOther.
+
+(* a parsed cell card: (material tokens, geometry, options), or LIKE n BUT options *)
+Inductive card := Plain (toks : list string) (opts : list opt) | Like (n : Z) (opts : list opt).
+
+(* the LIKE loop: parsed_cell = apply_but(parsed_cells[n], parsed_cell[2]) until
+   the geometry is no longer "like n but": the options of the model cell come
+   first, the cell's own (accumulated) options after them; a missing model cell
+   is a KeyError; cards that are LIKE each other make Python loop forever (EFuel) *)
+Fixpoint like_resolve (fuel : nat) (cards : idict card) (c : card) : res (list string * list opt) :=
+  match c with
+  | Plain toks o => Ok (toks, o)
+  | Like n o =>
+      match fuel with
+      | O => Err EFuel
+      | S f => match ilookup n cards with
+               | None => Err EKey
+               | Some c' => match like_resolve f cards c' with
+                            | Err e => Err e
+                            | Ok (toks, o') => Ok (toks, (o' ++ o)%list)
+                            end
+               end
+      end
+  end.
+
+(* parse_keywords: keywords['material'] / keywords['density'] = the LAST entry *)
+Fixpoint kw_mat (o : list opt) (acc : option string) : option string :=
+  match o with
+  | [] => acc
+  | OMat s :: r => kw_mat r (Some s)
+  | _ :: r => kw_mat r acc
+  end.
+Fixpoint kw_rho (o : list opt) (acc : option string) : option string :=
+  match o with
+  | [] => acc
+  | ORho s :: r => kw_rho r (Some s)
+  | _ :: r => kw_rho r acc
+  end.
+
+(* parse_one_cell, material side *)
+Definition card_material (fuel : nat) (cards : idict card) (c : card) : res (string * option string) :=
+  match like_resolve fuel cards c with
+  | Err e => Err e
+  | Ok (toks, o) => cell_material toks (kw_mat o None) (kw_rho o None)
   end.
 
 (* ------------------------------------------------------------------------ *)
@@ -426,3 +489,107 @@ Fixpoint comp_scan (key : Z) (cells : dict cell) (seen : list string) : res (lis
   end.
 
 Definition comp_names (key : Z) (cells : dict cell) : res (list string) := comp_scan key cells [].
+
+(* ------------------------------------------------------------------------ *)
+(* writeT4Composition: the COMPOSITION block as text                          *)
+(* ------------------------------------------------------------------------ *)
+
+(* what compositionConversionMCNPToT4 + extract_isotopes_fractions give for one
+   material card (their contents are C10's): key, atom_fracs flag, nuclide
+   names with absolute fraction strings *)
+Record mcard := mkMcard { k_key : Z; k_atom : bool; k_fracs : list (string * string) }.
+
+(* the densities (normalised) for which constructCompositionT4 makes a
+   composition of material [key], in order: comp_scan without the name prefix *)
+Fixpoint comp_dens (key : Z) (cells : dict cell) (seen : list string) : res (list string) :=
+  match cells with
+  | [] => Ok []
+  | (_, c) :: r =>
+      if negb (live c) then comp_dens key r seen else
+      match int_of_token (c_mat c) with
+      | None => Err EValue
+      | Some m =>
+          if negb (m =? key)%Z then comp_dens key r seen else
+          match c_dens c with
+          | None => Err EType
+          | Some d =>
+              if mem_string d seen then comp_dens key r seen else
+              match normalize_float d with
+              | Err e => Err e
+              | Ok nd =>
+                  if float_ok nd then
+                    match comp_dens key r (d :: seen) with
+                    | Err e => Err e
+                    | Ok l => Ok (nd :: l)
+                    end
+                  else Err EValue
+              end
+          end
+      end
+  end.
+
+(* float(nd) < 0.0 for a spelling float() accepts: a minus sign and a non-zero
+   mantissa digit (exponents are assumed far from underflow) *)
+Fixpoint has_nonzero_digit (s : string) : bool :=
+  match s with
+  | EmptyString => false
+  | String c r => (is_digit c && negb (Ascii.eqb c "0")) || has_nonzero_digit r
+  end.
+Definition neg_density (nd : string) : bool :=
+  match nd with
+  | String "-" r => has_nonzero_digit (take_until "e" r)
+  | _ => false
+  end.
+
+(* str_fabs on a string without blanks *)
+Definition str_fabs (s : string) : string :=
+  match s with String "-" r => r | _ => s end.
+
+Fixpoint join_isos (l : list (string * string)) : string :=
+  match l with
+  | [] => ""
+  | [(n, a)] => n ++ " " ++ a
+  | (n, a) :: r => n ++ " " ++ a ++ nl ++ "  " ++ join_isos r
+  end.
+
+(* one block; [pw] gives the rescaled concentrations of a POINT_WISE
+   composition by name (floats: C10's), used only when the card has atom fractions *)
+Definition find_isos (name : string) (pw : list (string * list (string * string))) : list (string * string) :=
+  match find (fun e => String.eqb (fst e) name) pw with Some e => snd e | None => [] end.
+
+Definition block_text (mc : mcard) (pw : list (string * list (string * string))) (nd : string) : string :=
+  let name := "m" ++ dec_Z (k_key mc) ++ "_" ++ nd in
+  if neg_density nd then
+    "DENSITY 300 " ++ name ++ " " ++ str_fabs nd ++ " " ++ (if k_atom mc then "NB_ATOM" else "") ++ " " ++
+    dec (N.of_nat (List.length (k_fracs mc))) ++ nl ++ "  " ++ join_isos (k_fracs mc) ++ nl
+  else
+    let isos := if k_atom mc then find_isos name pw else [] in
+    "POINT_WISE 300 " ++ name ++ " " ++ dec (N.of_nat (List.length isos)) ++ nl ++ "  " ++ join_isos isos ++ nl.
+
+(* the blocks of all cards, in card order *)
+Fixpoint all_blocks (mcs : list mcard) (cells : dict cell) (pw : list (string * list (string * string)))
+  : res (list string) :=
+  match mcs with
+  | [] => Ok []
+  | mc :: r => match comp_dens (k_key mc) cells [] with
+               | Err e => Err e
+               | Ok ds => match all_blocks r cells pw with
+                          | Err e => Err e
+                          | Ok t => Ok (map (block_text mc pw) ds ++ t)%list
+                          end
+               end
+  end.
+
+Fixpoint concat_str (l : list string) : string :=
+  match l with [] => "" | x :: r => x ++ concat_str r end.
+
+(* what writeT4Composition writes when constructCompositionT4 returns *)
+Definition write_compositions (mcs : list mcard) (cells : dict cell)
+  (pw : list (string * list (string * string))) : res string :=
+  match all_blocks mcs cells pw with
+  | Err e => Err e
+  | Ok blocks =>
+      Ok (nl ++ "COMPOSITION" ++ nl ++ dec (N.of_nat (List.length blocks) + 1) ++ nl ++
+          concat_str blocks ++
+          "POINT_WISE 300 m0 1" ++ nl ++ "  HE4 1E-30" ++ nl ++ nl ++ "END_COMPOSITION" ++ nl)
+  end.
